@@ -31,6 +31,10 @@ type HStep struct {
 	// Join (backend records): written in the same Conn.Write call as the next
 	// backend record of the history (a backend flushing several records at once).
 	Join bool `json:"join,omitempty"`
+	// SlowReturn (backend records, concurrent histories, first record of a
+	// Write): the transport has delivered the record but its Write only returns
+	// after the client's next record has been read by the pump.
+	SlowReturn bool `json:"slow_return,omitempty"`
 }
 
 // HistoryPlan: an accepted first hello followed by an interleaving of client
@@ -224,6 +228,10 @@ type histIO struct {
 	out    func() []byte // every byte the client-side transport has received
 	closes func() int
 	pk     *string // set to "site: message" when a call into the library panicked
+	// slow (concurrent histories only): the next write returns late, see HStep.SlowReturn.
+	slow func()
+	// settle waits for a late write and reports its result.
+	settle func() (n int, err error, was bool)
 }
 
 func seqIO(b *built) *histIO {
@@ -293,7 +301,24 @@ func concIO(w *simnet.World, b *built) *histIO {
 		}
 		cc.SetReadDeadline(time.Time{})
 	}
+	slowNext := false
+	var late chan struct{} // closed when the late write has returned
+	var lateN int
+	var lateErr error
+	var release chan struct{}
+	settle := func() (int, error, bool) {
+		if late == nil {
+			return 0, nil, false
+		}
+		close(release)
+		<-late
+		late = nil
+		fc.WriteHook = nil
+		return lateN, lateErr, true
+	}
 	return &histIO{pk: pk,
+		slow:   func() { slowNext = true },
+		settle: settle,
 		start: func() (first []byte, accepted bool, err error) {
 			cc.Write(b.outerRec)
 			if p, m, s := core.Guard(func() { conn, err = ech.NewConn(context.Background(), fc, keyOptions(b.keys)...) }); p {
@@ -337,6 +362,53 @@ func concIO(w *simnet.World, b *built) *histIO {
 			return r.b, r.err
 		},
 		write: func(rec []byte) (n int, err error) {
+			if slowNext {
+				slowNext = false
+				reached := make(chan struct{})
+				release = make(chan struct{})
+				late = make(chan struct{})
+				first := true
+				fc.WriteHook = func(int) {
+					if first {
+						first = false
+						close(reached)
+						<-release
+					}
+				}
+				go func(done chan struct{}) {
+					defer close(done)
+					if p, m, s := core.Guard(func() { lateN, lateErr = conn.Write(rec) }); p {
+						*pk = s + ": " + normMsg(m)
+					}
+				}(late)
+				select {
+				case <-reached:
+				case <-late: // failed before anything was written
+					late = nil
+					fc.WriteHook = nil
+					return lateN, lateErr
+				}
+				// the first record is with the client, the Write has not returned
+				sz := 5 + (int(rec[3])<<8 | int(rec[4]))
+				buf := make([]byte, sz)
+				cc.SetReadDeadline(time.Now().Add(time.Second))
+				k, _ := io.ReadFull(cc, buf)
+				cc.SetReadDeadline(time.Time{})
+				got = append(got, buf[:k]...)
+				if sz < len(rec) {
+					// the rest of this Write only follows once it is released
+					n, err, _ = settle()
+					if err == nil {
+						buf = make([]byte, len(rec)-sz)
+						cc.SetReadDeadline(time.Now().Add(time.Second))
+						k, _ = io.ReadFull(cc, buf)
+						cc.SetReadDeadline(time.Time{})
+						got = append(got, buf[:k]...)
+					}
+					return n, err
+				}
+				return len(rec), nil
+			}
 			if p, m, s := core.Guard(func() { n, err = conn.Write(rec) }); p {
 				*pk = s + ": " + normMsg(m)
 			}
@@ -424,6 +496,12 @@ func runHistory(prop string, seed uint64, p *HistoryPlan, b *built, io_ *histIO,
 	outLen := 0
 	var sigParts []string
 	var pendingW []byte
+	slowFirst := false
+	defer func() {
+		if io_.settle != nil {
+			io_.settle()
+		}
+	}()
 	for i, st := range p.Steps {
 		sigParts = append(sigParts, st.Side+":"+st.Kind+fmt.Sprint(st.Join))
 		if st.Side == "b" {
@@ -436,12 +514,26 @@ func runHistory(prop string, seed uint64, p *HistoryPlan, b *built, io_ *histIO,
 			default:
 				rec = plainRecord(seed, st.Kind, i)
 			}
+			if len(pendingW) == 0 {
+				slowFirst = st.SlowReturn
+			}
 			pendingW = append(pendingW, rec...)
 			flush := !(st.Join && i+1 < len(p.Steps) && p.Steps[i+1].Side == "b")
 			if flush {
 				if len(pendingW) > len(rec) {
 					res.Probe("several_records_per_write")
 				}
+				if io_.settle != nil {
+					if n, err, was := io_.settle(); was && err != nil {
+						fail("history", "Conn.Write of a backend record failed (late return)", "step %d: n=%d err=%v", i, n, err)
+						break
+					}
+				}
+				if slowFirst && io_.slow != nil {
+					io_.slow()
+					res.Probe("write_returns_after_next_read")
+				}
+				slowFirst = false
 				wn, werr := io_.write(pendingW)
 				if *io_.pk != "" {
 					fail("panic", *io_.pk, "step %d: Write %s", i, st.Kind)
@@ -516,6 +608,12 @@ func runHistory(prop string, seed uint64, p *HistoryPlan, b *built, io_ *histIO,
 			}
 		}
 		got, rerr := io_.feed(rec)
+		if io_.settle != nil {
+			if n, err, was := io_.settle(); was && err != nil && rerr == nil {
+				fail("history", "Conn.Write of a backend record failed (late return)", "step %d: n=%d err=%v", i, n, err)
+				break
+			}
+		}
 		if *io_.pk != "" {
 			fail("panic", *io_.pk, "step %d: Read %s", i, st.Kind)
 			break
@@ -586,6 +684,7 @@ func genC06(seed uint64, idx int) *Plan {
 			if i == 0 && r.IntN(2) == 0 {
 				st.Kind = "hrr"
 			}
+			st.SlowReturn = h.Concurrent && r.IntN(2) == 0
 		} else {
 			st = HStep{Side: "c", Kind: cKinds[r.IntN(len(cKinds))], A: r.IntN(1 << 20), RealCtx: r.IntN(2) == 0}
 		}
